@@ -34,8 +34,9 @@ func c14SessCreds(r *rand.Rand, in *sessIn) {
 }
 
 type c14Case struct {
-	Auth *c14In  `json:"auth,omitempty"`
-	Sess *sessIn `json:"sess,omitempty"`
+	Auth *c14In    `json:"auth,omitempty"`
+	Sess *sessIn   `json:"sess,omitempty"`
+	Cfg  *c14CfgIn `json:"cfg,omitempty"`
 }
 type c14Prop struct{}
 
@@ -44,7 +45,7 @@ func (c14Prop) RunFn() string { return "run_C14b" }
 func (c14Prop) Workers() int  { return 16 }
 func (c14Prop) Journal() bool { return true }
 func (c14Prop) Rule() string {
-	return c14{}.Rule() + " PLUS whole negotiations against the scripted TCP/STARTTLS server: the mechanism list differs between the stream before and the stream after STARTTLS, and between two connections of the same Client (offered only before TLS / only after TLS / no longer offered on the reconnect); every reply kind at the <auth/> step with the server going on to answer afterwards (stream restart, bind...) as if nothing had happened; oracle: <auth/> names a mechanism offered in the features of THAT stream, no <auth/> and a permanent error when there is none, nothing but teardown after a non-success reply"
+	return c14{}.Rule() + " PLUS the configured JID string through the real NewClient and a complete negotiation against an accepting server (payload = NUL + bytes before the first '@' + NUL + secret, resource and stream-header domain as the string's pieces; Model/ClientConfig.v) PLUS whole negotiations against the scripted TCP/STARTTLS server: the mechanism list differs between the stream before and the stream after STARTTLS, and between two connections of the same Client (offered only before TLS / only after TLS / no longer offered on the reconnect); every reply kind at the <auth/> step with the server going on to answer afterwards (stream restart, bind...) as if nothing had happened; oracle: <auth/> names a mechanism offered in the features of THAT stream, no <auth/> and a permanent error when there is none, nothing but teardown after a non-success reply"
 }
 func (c14Prop) Gen(r *rand.Rand, tier string) []interface{} {
 	var out []interface{}
@@ -59,6 +60,10 @@ func (c14Prop) Gen(r *rand.Rand, tier string) []interface{} {
 			out = append(out, c14Case{Sess: &v})
 		}
 	}
+	for _, x := range genC14c(r, tier) {
+		v := x.(c14CfgIn)
+		out = append(out, c14Case{Cfg: &v})
+	}
 	return out
 }
 func (c14Prop) Decode(raw json.RawMessage) (interface{}, error) {
@@ -72,6 +77,9 @@ func (c14Prop) Run(in interface{}) Sx {
 	c := in.(c14Case)
 	if c.Auth != nil {
 		return c14{}.Run(*c.Auth)
+	}
+	if c.Cfg != nil {
+		return runC14c(*c.Cfg)
 	}
 	// the session observation, plus per connection the character data of every <auth/> the server received
 	ob, sx := runSessionRaw(*c.Sess)
@@ -94,6 +102,9 @@ func (c14Prop) InputObs(in interface{}, obs Sx) Sx {
 	if c.Auth != nil {
 		return L(Z(0), c14{}.Input(*c.Auth))
 	}
+	if c.Cfg != nil {
+		return inputC14c(*c.Cfg)
+	}
 	inner := L()
 	if len(obs.L) == 2 {
 		inner = obs.L[0]
@@ -105,6 +116,9 @@ func (c14Prop) Oracle(in interface{}, obs Sx) (string, string) {
 	c := in.(c14Case)
 	if c.Auth != nil {
 		return c14{}.Oracle(*c.Auth, obs)
+	}
+	if c.Cfg != nil {
+		return oracleC14c(*c.Cfg, obs)
 	}
 	// the session oracle (success iff the script completes, request order, ...) plus C14's own clauses
 	if len(obs.L) != 2 {
@@ -151,6 +165,9 @@ func (c14Prop) Key(in interface{}) (string, bool) {
 	c := in.(c14Case)
 	if c.Auth != nil {
 		return c14{}.Key(*c.Auth)
+	}
+	if c.Cfg != nil {
+		return "K" + c.Cfg.JidHex + "/" + c.Cfg.Domain + "/" + c.Cfg.SecretHex, true
 	}
 	k, nt := sessProp{id: "C14"}.Key(*c.Sess)
 	return "S" + k, nt
